@@ -8,7 +8,9 @@ PROP = "C20"
 LEVEL = "other"
 SELFTEST_PARTS = ("num",)
 WALL_BUDGET = {"quick": 900, "thorough": 5400}
-ACTIONS = ["remote-write", "remote-delete", "local-create", "local-edit", "request-path", "request-id", "unrequest", "listdir", "remote-mkdir", "remote-create-b"]
+ACTIONS = ["remote-write", "remote-delete", "local-create", "local-edit", "request-path", "request-id", "unrequest", "listdir", "remote-mkdir", "remote-create-b",
+           "unrequest-id", "remote-create-nested", "request-nested"]
+QUICK_ACTIONS = 10        # the generic quick families draw from the first ten; the last three are exercised by focused families
 
 
 class RoundSlots:
@@ -45,6 +47,7 @@ def _factory(params, env=None, monitor=None):
         h = History(lab, e)
         requested = False          # is /a currently requested?
         ever = False
+        req_n = ever_n = False     # the same for the nested file /m/f
         hist = h.hist
         nloc = [0]
 
@@ -54,6 +57,8 @@ def _factory(params, env=None, monitor=None):
         def check_never_downloaded(where):
             if not ever and local_a():
                 raise Fail("a file that exists only remotely was downloaded although nobody requested it", where=where, symptom="downloaded-unrequested")
+            if not ever_n and lab.user(lambda: l.info_path("/L/m/f")):
+                raise Fail("a nested file that exists only remotely was downloaded although nobody requested it", where=where, symptom="downloaded-unrequested")
             if not auto and lab.user(lambda: l.info_path("/L/b")):
                 raise Fail("a remote-only file was downloaded without request or predicate", where=where, symptom="downloaded-unrequested")
 
@@ -68,7 +73,7 @@ def _factory(params, env=None, monitor=None):
             first = params.get("first")
             prefix = params.get("prefix") or ([first] if first else [])
             for k in range(params["nact"]):
-                a = prefix[k] if k < len(prefix) else ACTIONS[e.choose("action", len(ACTIONS))]
+                a = prefix[k] if k < len(prefix) else ACTIONS[e.choose("action", params.get("pool") or len(ACTIONS))]
                 tag = b"%d" % k
                 n0 = len(lab.calls)
                 try:
@@ -124,7 +129,19 @@ def _factory(params, env=None, monitor=None):
                             hist.append("request-id")
                         else:
                             hist.append("noop")
-                    elif a == "unrequest":
+                    elif a == "remote-create-nested":
+                        if not lab.user(lambda: r.info_path("/R/m")):
+                            lab.user(lambda: r.mkdir("/R/m"))
+                        if not lab.user(lambda: r.info_path("/R/m/f")):
+                            lab.user(lambda: r.create("/R/m/f", io.BytesIO(b"F" + tag)))
+                            hist.append("remote-create-nested")
+                        else:
+                            hist.append("noop")
+                    elif a == "request-nested":
+                        lab.cs.smart_sync_path("/R/m/f", 1)
+                        req_n = ever_n = True
+                        hist.append("request-nested")
+                    elif a in ("unrequest", "unrequest-id"):
                         before_local = None
                         i = local_a()
                         if i:
@@ -132,8 +149,17 @@ def _factory(params, env=None, monitor=None):
                             lab.user(lambda: l.download(i.oid, b))
                             before_local = b.getvalue()
                         rbefore = lab.user(lambda: r.info_path("/R/a"))
-                        res = lab.cs.smart_unsync_path("/L/a", 0)
-                        hist.append("unrequest")
+                        if a == "unrequest":
+                            res = lab.cs.smart_unsync_path("/L/a", 0)
+                        elif rbefore:
+                            # the by-id call returns the (cleared) local path, i.e. None, either way: read the request set to know whether the call applied
+                            ent_ = lab.cs.state.lookup_oid(1, rbefore.oid)
+                            was_req = ent_ is not None and ent_ in lab.cs.state.requestset
+                            lab.cs.smart_unsync_oid(rbefore.oid)
+                            res = was_req
+                        else:
+                            res = None
+                        hist.append(a)
                         new = lab.calls[n0:]
                         if any(c[0] == 1 and c[1] == "delete" for c in new):
                             raise Fail("un-requesting a file deleted the remote copy", symptom="remote-delete-on-unrequest")
@@ -181,6 +207,8 @@ def _factory(params, env=None, monitor=None):
                     raise Fail("folders are not mirrored", folder=d, symptom="folder-not-mirrored", **info)
             if requested and "/a" in tr and tl.get("/a") != tr.get("/a"):
                 raise Fail("a requested file is not in sync at quiescence", symptom="requested-not-synced", **info)
+            if req_n and "/m/f" in tr and tl.get("/m/f") != tr.get("/m/f"):
+                raise Fail("a requested nested file is not in sync at quiescence", symptom="requested-not-synced", **info)
             if auto and "/b" in tr and tl.get("/b") != tr.get("/b"):
                 raise Fail("a file matching the auto-sync predicate was not downloaded", symptom="predicate-not-synced", **info)
             check_never_downloaded("quiescence")
@@ -226,18 +254,25 @@ def jobs(tier):
                 p = {"flavour": f, "auto": auto, "nact": 3, "slots": 1, "first": a}
                 if q:
                     p["slotmode"] = "round"
+                    p["pool"] = QUICK_ACTIONS
+                    if ACTIONS.index(a) >= QUICK_ACTIONS:
+                        continue
                 out.append({"harness": "smart", "params": p, "label": "%s/%s/3-actions/first=%s" % (f, "auto-b" if auto else "no-predicate", a)})
         # request / un-request / ... : re-request after un-request needs four actions
         for pre in (["request-path", "unrequest"], ["request-id", "unrequest"]):
             out.append({"harness": "smart", "params": {"flavour": f, "auto": False, "nact": 4 if q else 5, "slots": 1, "slotmode": "round", "prefix": pre},
                         "label": "%s/no-predicate/%d-actions/prefix=%s" % (f, 4 if q else 5, "+".join(pre))})
+        # nested remote file: the request has to bring the (possibly unsynced) parent folder first; un-request by id
+        for pre in (["remote-create-nested"], ["request-path", "unrequest-id"]):
+            out.append({"harness": "smart", "params": {"flavour": f, "auto": False, "nact": 3 if q else 4, "slots": 1, "slotmode": "round" if q else None, "prefix": pre},
+                        "label": "%s/no-predicate/%d-actions/prefix=%s" % (f, 3 if q else 4, "+".join(pre))})
     return out
 
 
 def meta(tier):
     return {
         "explanation": "M2 on the real SmartCloudSync/SmartSyncManager/SmartSyncState/SmartEventManager: sequences of 3 (thorough 4) actions from {remote create/edit, remote delete, "
-                       "remote mkdir, remote create of a second file, local create, local edit, request by path, request by id, un-request, merged listing} with a solver-chosen slot after each, "
+                       "remote mkdir, remote create of a second file, local create, local edit, request by path, request by id, un-request by path or id, merged listing, remote create of a nested file in a new folder, request of the nested file} with a solver-chosen slot after each, "
                        "with and without a registered auto-sync predicate. Oracles: an unrequested remote-only file is never present locally (checked after every engine step and API call); "
                        "un-request issues no remote delete, removes the local copy and first uploads newer local edits; listing reports local files as synced and known remote-only files as "
                        "not synced; at quiescence folders are mirrored, local creations uploaded, a requested or predicate-matched file equal on both sides.",
